@@ -91,11 +91,17 @@ def main():
         finally:
             pass
     sh("rm -rf " + REPO)
-    # RESULTS.json records the last run of the WHOLE corpus; a run of selected
-    # cases reports on stdout only.
-    if not sys.argv[1:]:
-        json.dump(results, open(os.path.join(HERE, "selftest", "RESULTS.json"), "w"), indent=1)
-    print("%d cases, %d bad" % (len(results), bad))
+    # RESULTS.json holds the latest result of every case: a run of the whole
+    # corpus rewrites it, a run of selected cases replaces just their entries.
+    print("%d cases run, %d bad" % (len(results), bad))
+    rp = os.path.join(HERE, "selftest", "RESULTS.json")
+    if sys.argv[1:] and os.path.exists(rp):
+        done = {r["case"] for r in results}
+        results = [r for r in json.load(open(rp)) if r["case"] not in done] + results
+        results.sort(key=lambda r: r["case"])
+    json.dump(results, open(rp, "w"), indent=1)
+    bad_total = sum(1 for r in results if not r.get("ok"))
+    print("RESULTS.json: %d cases recorded, %d bad" % (len(results), bad_total))
     return 1 if bad else 0
 
 
